@@ -259,7 +259,10 @@ def scenario(base, method, fault, pos, after):
         return ("solver_called",)
     except Exception as e:
         import sys
-        first = ("raised", core.rockit_frame(sys.exc_info()[2]) or type(e).__name__, type(e).__name__, str(e)[:160])
+        fr_ = core.rockit_frame(sys.exc_info()[2])
+        if fr_ is None and not isinstance(e, (RuntimeError, AssertionError)):
+            raise            # an exception of the harness itself must not be read as a rejection
+        first = ("raised", fr_ or type(e).__name__, type(e).__name__, str(e)[:160])
         # a retry on the same object (try/except loop, re-run notebook cell) must not hand an NLP to the solver either
         if fault is not None and locals().get("stage_solve"):
             try:
